@@ -140,8 +140,11 @@ class Stacker(Transformer):
     def _validate_transform_feature_coords(self, X: Data):
         """Verify that the feature coordinates of the data are consistent with the feature coordinates used to fit the stacker."""
         feature_dims = self.dims_mapping[self.feature_name]
+        # Compare the labels only: additional non-index (e.g. scalar) coordinates
+        # attached to the data must not matter
         coords_are_equal = [
-            X.coords[dim].equals(self.coords_in[dim]) for dim in feature_dims
+            X.coords[dim].to_index().equals(self.coords_in[dim].to_index())
+            for dim in feature_dims
         ]
         if not all(coords_are_equal):
             raise ValueError(
